@@ -63,6 +63,12 @@ CHECKS.update({
             'scipy estimators are deterministic uninterpreted functions of their arguments; histories of two fits.'),
 })
 
+CHECKS.update({
+    'C05': ('model_checking', 'symbolic execution of select_univariate / fallback with stub candidates and symbolic KS statistics + SMT; CrossHair on the per-column lookup',
+            'Every path of the real select_univariate for <=3 (4 thorough) stub candidates, every subset of them failing in fit, arbitrary KS statistics (ties included): a fittable candidate with minimal KS is returned as a fresh instance; filters enumerated exhaustively (12 combinations); fallback to a fitted Gaussian for RuntimeError/ValueError/Exception; per-column lookup by CrossHair with symbolic names plus enumerated shapes.',
+            'scipy kstest is a contract (symbolic statistic).'),
+})
+
 NOT_APPLICABLE = {}
 
 
